@@ -729,7 +729,7 @@ MANIFEST = {
             'construction that can reach the caller\'s model is enumerated and classified '
             '(names forward reads, parameters, buffers); the two BatchNorm folding blocks equal '
             'the folding formula and each other. Numerical equality of wrapped and original '
-            'outputs is not computed.',
+            'outputs is not computed. The constructor\'s own stores on the layers it keeps (the caller\'s objects for SuperNet blocks / user-placed PIT layers) are classified like the conversion\'s.',
     'note': 'Known finding: with user-placed PIT layers (autoconvert off) the in-place BatchNorm '
             'fuse/fold modifies caller-owned layers.',
     'technique': 'constructor slot agreement + must-pass-through of mode restore + '
